@@ -88,8 +88,11 @@ func (r *Reassembler) PushMessage(msg *auparse.AuditMessage) {
 		return
 	}
 
+	verifYield(verifPushStart)
 	r.list.Put(msg)
+	verifYield(verifPushAfterPut)
 	evicted, lost := r.list.CleanUp()
+	verifYield(verifPushAfterCleanUp)
 	r.callback(evicted, lost)
 }
 
@@ -111,18 +114,24 @@ func (r *Reassembler) Push(typ auparse.AuditMessageType, rawData []byte) error {
 // periodically to evict timed-out events. It returns a non-nil error if
 // the Reassembler has been closed.
 func (r *Reassembler) Maintain() error {
+	verifYield(verifMaintainStart)
 	if atomic.LoadInt32(&r.closed) == 1 {
 		return errReassemblerClosed
 	}
+	verifYield(verifMaintainAfterLoad)
 	evicted, lost := r.list.CleanUp()
+	verifYield(verifMaintainAfterCleanUp)
 	r.callback(evicted, lost)
 	return nil
 }
 
 // Close flushes any cached events and closes the Reassembler.
 func (r *Reassembler) Close() error {
+	verifYield(verifCloseStart)
 	if atomic.CompareAndSwapInt32(&r.closed, 0, 1) {
+		verifYield(verifCloseAfterCAS)
 		evicted, lost := r.list.Clear()
+		verifYield(verifCloseAfterClear)
 		r.callback(evicted, lost)
 		return nil
 	}
@@ -131,10 +140,12 @@ func (r *Reassembler) Close() error {
 
 func (r *Reassembler) callback(events []*event, lost int) {
 	for _, e := range events {
+		verifYield(verifBeforeCallback)
 		r.stream.ReassemblyComplete(e.msgs)
 	}
 
 	if lost > 0 {
+		verifYield(verifBeforeCallback)
 		r.stream.EventsLost(lost)
 	}
 }
